@@ -684,7 +684,7 @@ def r17d(ctx):
                 env = em.Env({}, {s: symbol_value(s) for s, _ in symbols}, {})
                 try:
                     got = em.run_expression(text, env, backend)
-                    err = None if isinstance(got, float) else "not a number"
+                    err = None if isinstance(got, (int, float)) else "not a number"
                 except em.EvalError as e:
                     got, err = None, str(e)
                 n += 1
@@ -859,6 +859,175 @@ def operator_of(sym):
     return [(1.0, [])] + [(float(f), [tuple(x.attrs["name"] for x in p.attrs["_items"]) for p in perms]) for perms, f in sym]
 
 
+def closed_scheme(cname, ident, operands, tgt):
+    """A valid contraction scheme by the documented rules: contract the first two objects of the pool, pulling in every
+    object that still carries an index the group would sum (closure), until one object is left."""
+    pool = list(operands)
+    scheme = []
+    while True:
+        group = [0, 1] if len(pool) > 1 else [0]
+        while True:
+            count = {}
+            for g in group:
+                for i in pool[g][1]:
+                    count[i] = count.get(i, 0) + 1
+            summed = {i for i, n in count.items() if n > 1 and i not in tgt}
+            more = [k for k in range(len(pool)) if k not in group and any(i in summed for i in pool[k][1])]
+            if not more:
+                break
+            group = sorted(group + more)
+        c = contraction(cname, ident + len(scheme), [pool[g][0] for g in group], [pool[g][1] for g in group], tgt)
+        scheme.append(c)
+        pool = [(c.attrs["contraction_name"], c.attrs["target"])] + [p for k, p in enumerate(pool) if k not in group]
+        if len(pool) == 1:
+            return scheme
+
+
+def random_pipelines(ctx, w, cname, count, seed=17):
+    """Pseudo-random terms (2-4 tensors, 0-3 target indices, 1-3 summed indices, exponents, eri/fock blocks, symbols,
+    rational and sqrt prefactors, permutation classes over target pairs) with a closed scheme each."""
+    import os
+    import random
+    rnd = random.Random(seed + int(os.environ.get("VERIF_SEED", "0") or 0))
+    out = []
+    for k in range(count):
+        occ, virt = list(w("ijkl")), list(w("abcd"))
+        pool = occ + virt
+        rnd.shuffle(pool)
+        nt, ns = rnd.randint(0, 3), rnd.randint(1, 3)
+        tgt, summed = pool[:nt], pool[nt:nt + ns]
+        rnd.shuffle(tgt)
+        terms = []
+        schemes = {}
+        for tno in range(rnd.randint(1, 3)):
+            ntens = rnd.randint(2, 4)
+            slots = [[] for _ in range(ntens)]
+            for i in tgt:
+                for pos in rnd.sample(range(ntens), rnd.choice((1, 1, 2))):
+                    slots[pos].append(i)
+            for i in summed:
+                for pos in rnd.sample(range(ntens), rnd.choice((2, 2, 3)) if ntens > 2 else 2):
+                    slots[pos].append(i)
+            tensors = []
+            for pos, ix in enumerate(slots):
+                if not ix:
+                    ix = [rnd.choice(tgt)] if tgt else [summed[0]]
+                    if not tgt:
+                        slots[(pos + 1) % ntens].append(summed[0]) if summed[0] not in slots[(pos + 1) % ntens] else None
+                rnd.shuffle(ix)
+                sp = spaces_of(ix)
+                name = ERI if len(ix) == 4 and rnd.random() < 0.5 else FOCK if len(ix) == 2 and rnd.random() < 0.3 else "ABCD"[pos]
+                tensors.append((name, tuple(ix), 1))
+            if rnd.random() < 0.3:          # an exponent: the tensor occurs twice with the same indices
+                nm, ix, _ = tensors[0]
+                if all(i in tgt for i in ix):
+                    tensors[0] = (nm, ix, 2)
+            # every summed index has to occur at least twice (Einstein convention), else it would be a target index
+            cnt = {}
+            for _, ix, e in tensors:
+                for i in ix:
+                    cnt[i] = cnt.get(i, 0) + e
+            if any(cnt.get(i, 0) < 2 for i in summed) or any(i not in cnt for i in tgt) \
+                    or any(n_ == 1 for i, n_ in cnt.items() if i not in tgt):
+                continue
+            symbols = rnd.choice(([], [], [("c", 1)], [("c", 2), ("z", 1)]))
+            t = term_rec(w, rnd.choice(PREFACTORS), symbols, tensors)
+            terms.append(t)
+            schemes[id(t)] = closed_scheme(cname, 1000 + 20 * len(out) + 5 * tno, term_operands(t), tuple(tgt))
+        if not terms:
+            continue
+        classes = [((), terms)]
+        pairs = [(p, q) for p in tgt for q in tgt if p is not q and p.attrs["space"] == q.attrs["space"] and p.attrs["name"] < q.attrs["name"]]
+        if pairs and rnd.random() < 0.7:
+            p, q = pairs[0]
+            sym = (((permutation(p, q),), rnd.choice((1, -1))),)
+            classes = [(sym, terms[:1])] + ([((), terms[1:])] if terms[1:] else [])
+        tstr = "".join(i.attrs["name"] for i in tgt)
+        if len(tstr) > 1 and rnd.random() < 0.5:
+            tstr = tstr[:1] + "," + tstr[1:]
+        opts = {}
+        if rnd.random() < 0.5:
+            opts = dict(max_itmd_dim=rnd.randint(2, 6), max_n_simultaneous_contracted=rnd.randint(2, 4),
+                        bra_ket_sym=rnd.choice((0, 1, -1)), antisymmetric_result_tensor=rnd.random() < 0.5)
+        out.append((f"random {k}: " + " + ".join(" ".join(f"{n_}_{''.join(i.attrs['name'] for i in ix)}{'^%d' % e if e > 1 else ''}"
+                                                            for n_, ix, e in t.attrs["_tensors"]) for t in terms) + f" -> {tstr or 'number'}",
+                    Pipeline(ctx, w, cname, tstr, None, classes, schemes, tuple(tgt), **opts)))
+    return out
+
+
+def check_pipeline(ctx, rule, fn, label, pl):
+    """generate_code on one scenario, both backends, both scheme builders; returns the number of programs generated."""
+    n = 0
+    target = idx_pairs(pl.tgt)
+    # the value of the expression: sum over the classes of operator(sum of the terms)
+    want = None
+    ptok = {}
+    for sym, terms in pl.classes:
+        acc = None
+        for t in terms:
+            tv = term_value(t, target)
+            acc = tv if acc is None else {p: acc[p] + tv[p] for p in acc}
+        acc = em.apply_operator(operator_of(sym), acc, target)
+        want = acc if want is None else {p: want[p] + acc[p] for p in want}
+        for perms, _ in sym:
+            for p in perms:
+                ptok[perm_token(ctx, p)] = tuple(x.attrs["name"] for x in p.attrs["_items"])
+    for backend, optimize in (("einsum", True), ("libtensor", True), ("einsum", False), ("libtensor", False)):
+        key = f"{label} {backend}{'' if optimize else ' unoptimised'}"
+        n += 1
+        outs = pl.run(backend, optimize)
+        text, why = concrete(outs)
+        if text is None:
+            ctx.bad(rule, fn, f"generate_code[{key}] {why}", key=f"program {key}")
+            continue
+        # what the black boxes were asked
+        by = {}
+        for short, b in pl.calls:
+            by.setdefault(short, []).append(b)
+        sep_free = pl.target_str.replace(",", "")
+        spin_free = pl.spin.replace(",", "") if pl.spin is not None else None
+        ex = by.get("exploit_perm_sym", [])
+        want_ex = dict(expr=pl.expr, target_indices=pl.target_str, target_spin=pl.spin,
+                       bra_ket_sym=pl.opts.get("bra_ket_sym", 0),
+                       antisymmetric_result_tensor=pl.opts.get("antisymmetric_result_tensor", True))
+        got_ex = [{k: b.get(k) for k in want_ex} for b in ex]
+        ctx.check(rule, fn, got_ex == [want_ex], f"{key}: symmetry analysis of the expression with the given targets, spin, "
+                  "bra-ket symmetry and tensor class",
+                  f"generate_code[{key}]: exploit_perm_sym is called with {got_ex}, expected once with {want_ex}",
+                  key=f"exploit args {key}")
+        builder = "optimize_contractions" if optimize else "unoptimized_contraction"
+        other = "unoptimized_contraction" if optimize else "optimize_contractions"
+        want_b = []
+        for t in (t for _, ts in pl.classes for t in ts if t.attrs["idx"]):
+            d = dict(term=t, target_indices=sep_free, target_spin=spin_free)
+            if optimize:
+                d.update(max_itmd_dim=pl.opts.get("max_itmd_dim"),
+                         max_n_simultaneous_contracted=pl.opts.get("max_n_simultaneous_contracted"))
+            want_b.append(d)
+        got_b = [{k: b.get(k) for k in want_b[0]} for b in by.get(builder, [])] if want_b else by.get(builder, [])
+        hide = lambda ds: [{k: v for k, v in g.items() if k != "term"} for g in ds]
+        ctx.check(rule, fn, got_b == want_b and not by.get(other),
+                  f"{key}: {builder} once per term with the separator-free targets, spin" + (" and limits" if optimize else ""),
+                  f"generate_code[{key}] (optimize_contraction_scheme={optimize}): {builder} is called with "
+                  f"{hide(got_b)}, expected {hide(want_b)} for the terms in order; {other} is called {len(by.get(other, []))} times",
+                  key=f"{builder} args {key}")
+        # the program
+        operands = [op for _, ts in pl.classes for t in ts for op in term_operands(t)]
+        symbols = {s_: symbol_value(s_) for _, ts in pl.classes for t in ts for s_, _ in t.attrs["_symbols"]}
+        env = token_env(backend, operands, symbols=symbols)
+        try:
+            got = em.run_program(text, env, backend, target, ptok)
+            err = None
+        except em.EvalError as e:
+            got, err = None, str(e)
+        d = None if err else em.first_difference(got, want)
+        ctx.check(rule, fn, not err and d is None, f"{key}: the emitted program evaluates to the expression",
+                  f"generate_code[{key}]: the emitted program " +
+                  (f"is not executable: {err}" if err else f"differs from the expression at {d[0]}: {d[1]} instead of {d[2]}" if d else "")
+                  + f"; program: {text[:600]!r}", key=f"program {key}")
+    return n
+
+
 def r17e(ctx):
     rule = "R17e"
     fn = ctx.model.fn(GC + "generate_code")
@@ -866,74 +1035,10 @@ def r17e(ctx):
     cname = Names(ctx.model)
     n = 0
     for label, pl in pipelines(ctx, w, cname):
-        target = idx_pairs(pl.tgt)
-        # the value of the expression: sum over the classes of operator(sum of the terms)
-        want = None
-        ptok = {}
-        for sym, terms in pl.classes:
-            acc = None
-            for t in terms:
-                tv = term_value(t, target)
-                acc = tv if acc is None else {p: acc[p] + tv[p] for p in acc}
-            acc = em.apply_operator(operator_of(sym), acc, target)
-            want = acc if want is None else {p: want[p] + acc[p] for p in want}
-            for perms, _ in sym:
-                for p in perms:
-                    ptok[perm_token(ctx, p)] = tuple(x.attrs["name"] for x in p.attrs["_items"])
-        for backend, optimize in (("einsum", True), ("libtensor", True), ("einsum", False), ("libtensor", False)):
-            key = f"{label} {backend}{'' if optimize else ' unoptimised'}"
-            n += 1
-            outs = pl.run(backend, optimize)
-            text, why = concrete(outs)
-            if text is None:
-                ctx.bad(rule, fn, f"generate_code[{key}] {why}", key=f"program {key}")
-                continue
-            # what the black boxes were asked
-            by = {}
-            for short, b in pl.calls:
-                by.setdefault(short, []).append(b)
-            sep_free = pl.target_str.replace(",", "")
-            spin_free = pl.spin.replace(",", "") if pl.spin is not None else None
-            ex = by.get("exploit_perm_sym", [])
-            want_ex = dict(expr=pl.expr, target_indices=pl.target_str, target_spin=pl.spin,
-                           bra_ket_sym=pl.opts.get("bra_ket_sym", 0),
-                           antisymmetric_result_tensor=pl.opts.get("antisymmetric_result_tensor", True))
-            got_ex = [{k: b.get(k) for k in want_ex} for b in ex]
-            ctx.check(rule, fn, got_ex == [want_ex], f"{key}: symmetry analysis of the expression with the given targets, spin, "
-                      "bra-ket symmetry and tensor class",
-                      f"generate_code[{key}]: exploit_perm_sym is called with {got_ex}, expected once with {want_ex}",
-                      key=f"exploit args {key}")
-            builder = "optimize_contractions" if optimize else "unoptimized_contraction"
-            other = "unoptimized_contraction" if optimize else "optimize_contractions"
-            want_b = []
-            for t in (t for _, ts in pl.classes for t in ts if t.attrs["idx"]):
-                d = dict(term=t, target_indices=sep_free, target_spin=spin_free)
-                if optimize:
-                    d.update(max_itmd_dim=pl.opts.get("max_itmd_dim"),
-                             max_n_simultaneous_contracted=pl.opts.get("max_n_simultaneous_contracted"))
-                want_b.append(d)
-            got_b = [{k: b.get(k) for k in want_b[0]} for b in by.get(builder, [])] if want_b else by.get(builder, [])
-            hide = lambda ds: [{k: v for k, v in g.items() if k != "term"} for g in ds]
-            ctx.check(rule, fn, got_b == want_b and not by.get(other),
-                      f"{key}: {builder} once per term with the separator-free targets, spin" + (" and limits" if optimize else ""),
-                      f"generate_code[{key}] (optimize_contraction_scheme={optimize}): {builder} is called with "
-                      f"{hide(got_b)}, expected {hide(want_b)} for the terms in order; {other} is called {len(by.get(other, []))} times",
-                      key=f"{builder} args {key}")
-            # the program
-            operands = [op for _, ts in pl.classes for t in ts for op in term_operands(t)]
-            symbols = {s_: symbol_value(s_) for _, ts in pl.classes for t in ts for s_, _ in t.attrs["_symbols"]}
-            env = token_env(backend, operands, symbols=symbols)
-            try:
-                got = em.run_program(text, env, backend, target, ptok)
-                err = None
-            except em.EvalError as e:
-                got, err = None, str(e)
-            d = None if err else em.first_difference(got, want)
-            ctx.check(rule, fn, not err and d is None, f"{key}: the emitted program evaluates to the expression",
-                      f"generate_code[{key}]: the emitted program " +
-                      (f"is not executable: {err}" if err else f"differs from the expression at {d[0]}: {d[1]} instead of {d[2]}" if d else "")
-                      + f"; program: {text[:600]!r}", key=f"program {key}")
-    ctx.floor(rule, "programs generated", n, 16)
+        n += check_pipeline(ctx, rule, fn, label, pl)
+    for label, pl in random_pipelines(ctx, w, cname, 120 if ctx.tier == "thorough" else 20):
+        n += check_pipeline(ctx, rule, fn, label, pl)
+    ctx.floor(rule, "programs generated", n, 56)
     # input guard
     sx = make_sx(ctx, "generate_code")
     for bad_expr, what in (("X_ia", "a string"), (Rec("expr_container:Term", "a term"), "a Term")):
